@@ -74,8 +74,9 @@ ProgStep(t) ==
   /\ LET f == Top(t) IN
      IF f.i > Len(f.code) THEN frames' = Pop(t) /\ UNCHANGED upReq
      ELSE LET o == f.code[f.i]  g == [f EXCEPT !.i = @ + 1] IN
-          IF o[1] = "dereg" /\ UnderConstruction(t, o[2])
-          THEN frames' = SetTop(t, g) /\ UNCHANGED upReq   \* destroying a registration inside its own constructor is not a legal use
+          IF (o[1] = "dereg" /\ UnderConstruction(t, o[2])) \/ o[1] = "unsub"
+          THEN frames' = SetTop(t, g) /\ UNCHANGED upReq   \* destroying a registration inside its own constructor is not a legal use;
+                                                         \* "unsub" (adapter unsubscribe) only concerns the upstream source
           ELSE IF o[1] = "up"
           THEN IF upReq[o[2]] THEN frames' = SetTop(t, g) /\ UNCHANGED upReq      \* upstream already stopped: returns at once
                ELSE /\ upReq' = [upReq EXCEPT ![o[2]] = TRUE]
